@@ -131,7 +131,7 @@ fn run_cli(bin: &Path, dir: &Path, workers: usize, preload: bool, quiet: bool) -
 fn build_cli(verif_dir: &Path) -> Result<PathBuf, String> {
     let target = verif_dir.join("target").join("cli");
     let o = Command::new("cargo")
-        .args(["build", "--offline", "--manifest-path", "/repo/Cargo.toml", "-p", "varpulis-cli", "--bin", "varpulis", "--target-dir"])
+        .args(["build", "--offline", "--manifest-path", &format!("{}/Cargo.toml", std::env::var("VERIF_REPO").unwrap_or_else(|_| "/repo".into())), "-p", "varpulis-cli", "--bin", "varpulis", "--target-dir"])
         .arg(&target)
         .env("CARGO_NET_OFFLINE", "true")
         .env_remove("RUSTFLAGS")
